@@ -158,6 +158,8 @@ def single_objective(name, x):
         return (ellipsoid(x),)
     if name == "step":
         return (step(x),)
+    if name == "far":             # optimum at 1.5 in every coordinate (outside the repair boxes)
+        return (sum((v - 1.5) ** 2 for v in x),)
     if name == "negsphere":       # maximised with weight +1
         return (-sphere(x),)
     raise ValueError(name)
@@ -233,6 +235,18 @@ class Fail(Exception):
     pass
 
 
+def repair(ind, spec):
+    """What a `toolbox.decorate("generate", ...)` repair does to an offspring in place, before it is evaluated:
+    clipping to a box or rounding to a grid.  The strategy must learn from the genome that was evaluated."""
+    if not spec:
+        return
+    for c in range(len(ind)):
+        if spec["kind"] == "clip":
+            ind[c] = min(spec["hi"], max(spec["lo"], ind[c]))
+        elif spec["kind"] == "grid":
+            ind[c] = round(ind[c] / spec["step"]) * spec["step"]
+
+
 def over(x, tol):
     """x exceeds tol — NaN-safe: a NaN or infinite error counts as exceeding."""
     return not (x <= tol)
@@ -298,7 +312,9 @@ def eval_oneplus(d):
             arz = numpy.array(tp.draws[0][2]).reshape(tp.draws[0][1])
             if len(pop) != lam:
                 raise Fail("round %d: generate returned %d individuals, lambda=%d" % (r, len(pop), lam))
+            raw = [list(i) for i in pop]        # as returned by generate, before any repair
             for ind in pop:
+                repair(ind, d.get("repair"))
                 ind.fitness.values = single_objective(obj, ind)
                 ind._id = next_id
                 evaluated[next_id] = (list(ind), tuple(ind.fitness.wvalues))
@@ -312,8 +328,7 @@ def eval_oneplus(d):
             popw = [tuple(i.fitness.wvalues) for i in pop]
             if sample_round(r, nrounds, dim * dim > 40) and r < 3:
                 lines.append("C14 op-gen %s %s %s %s" % (fv(pre["px"]), fbits(pre["sigma"]), fm(pre["A"]), fm(arz)))
-                byid = {i._id: list(i) for i in pop}
-                expect.append(fm([byid[k] for k in sorted(byid)]))
+                expect.append(fm(raw))
             try:
                 strategy.update(pop)
             except numpy.linalg.LinAlgError:
@@ -386,7 +401,8 @@ def eval_oneplus(d):
     if elit_rounds:
         lines.append("C14 elit %d 0 %s %s" % (lam, fv(evaluated[0][1]), " ".join(elit_rounds)))
         expect.append(" ".join(elit_expect))
-    tag = "op/%s/d%d/l%d/%s" % (obj, dim, lam, "+".join(sorted(branches)) or "none")
+    tag = "op/%s/d%d/l%d/%s%s" % (obj, dim, lam, "+".join(sorted(branches)) or "none",
+                                  "/repair-" + d["repair"]["kind"] if d.get("repair") else "")
     return Case(d, lines, expect, orc, tag=tag, nontrivial=(n_repl > 0 and n_keep > 0), tol=TOL)
 
 
@@ -619,6 +635,7 @@ def eval_mo(d):
                     il([int(x) for x in ex.randints])))
                 expect.append("%s %s %s" % (il(range(m)), fm([list(o) for o in off]), il([t[1] for t in tags])))
             for o in off:
+                repair(o, d.get("repair"))
                 o.fitness.values = bi_objective(obj, o)
             offx = [list(o) for o in off]
             offw = [tuple(o.fitness.wvalues) for o in off]
@@ -1200,6 +1217,37 @@ def gen_invalid_parent(thorough, rng, mult, lmax):
                "rounds": rng.randint(3, 12), "seed": rng.randrange(1 << 30), "shuffle": False, "kargs": dict(cpk)}
 
 
+def gen_realised_step(thorough, rng, mult, lmax):
+    """offspring whose evaluated genome is not parent + sigma*A*z: repaired between generate and update (clipping to
+    a box the optimum lies outside of, rounding to a grid), or absorbed by IEEE rounding (|parent| >> sigma).  The
+    success rule is driven by the realised step of the stored parent."""
+    for i in range((40 if thorough else 12) * mult):
+        dim = rng.randint(2, 5)
+        lam = rng.choice([1, 2, 4, rng.randint(1, lmax)])
+        rep = rng.choice([{"kind": "clip", "lo": -1.0, "hi": 1.0}, {"kind": "clip", "lo": 0.0, "hi": 0.75},
+                          {"kind": "grid", "step": 0.25}, {"kind": "grid", "step": 1.0}])
+        x0 = [round(rng.uniform(0.5, 0.95), 3) for _ in range(dim)]
+        if rep["kind"] == "grid":
+            x0 = [round(v / rep["step"]) * rep["step"] for v in x0]
+        else:
+            x0 = [min(rep["hi"], max(rep["lo"], v)) for v in x0]
+        # maximised -sphere pulls towards 0, "farsphere" (below) pushes against the upper bound
+        yield {"k": "op", "dim": dim, "lam": lam, "obj": rng.choice(["sphere", "far", "step"]), "x0": x0,
+               "sigma": rng.choice([0.3, 0.5, 1.0]), "rounds": rng.randint(2, 20), "seed": rng.randrange(1 << 30),
+               "shuffle": rng.random() < 0.5, "repair": rep, "kargs": rand_kargs(rng, "op")}
+        # IEEE absorption: the offspring equals the parent or differs by a few ulps
+        yield {"k": "op", "dim": dim, "lam": lam, "obj": rng.choice(["sphere", "far"]),
+               "x0": [rng.choice([-1, 1]) * round(rng.uniform(500.0, 2000.0), 1) for _ in range(dim)],
+               "sigma": rng.choice([1e-14, 1e-13, 1e-12]), "rounds": rng.randint(2, 12), "seed": rng.randrange(1 << 30),
+               "shuffle": False}
+        # the same for the MO strategy (its path uses the offspring genome handed to update)
+        mu = rng.randint(1, 3)
+        yield {"k": "mo", "dim": dim, "mu": mu, "lam": rng.choice([mu, rng.randint(1, lmax)]), "obj": "bisphere",
+               "x0": [[min(1.0, max(-1.0, v)) for v in rnd_vec(rng, dim, -1.0, 1.0)] for _ in range(mu)],
+               "sigma": rng.choice([0.5, 1.0]), "rounds": rng.randint(2, 12), "seed": rng.randrange(1 << 30),
+               "repair": {"kind": "clip", "lo": -1.0, "hi": 1.0}}
+
+
 def gen_histories(thorough, rng, mult, dmax, lmax, mumax):
     nhist = (1200 if thorough else 220) * mult
     for i in range(nhist):
@@ -1331,6 +1379,8 @@ def generate(tier, rng, mult):
     for d in gen_actsing(thorough, rng, mult):
         yield d
     for d in gen_invalid_parent(thorough, rng, mult, lmax):
+        yield d
+    for d in gen_realised_step(thorough, rng, mult, lmax):
         yield d
     for d in gen_histories(thorough, rng, mult, dmax, lmax, mumax):
         yield d
